@@ -367,12 +367,7 @@ class DispatchRule(paths.Rule):
             self.wait.note("wait-after-notify", noti, cond,
                            f"the completion wait is reached on a path where {self.R.P} was published but not "
                            f"notify_all'ed: sleeping workers never start and the wait never ends")
-            b = cxx.resolve_local(bound, ctx.fn, self.R.kl)
-            okb = False
-            if b is not None and b.get("k") == "CXXMemberCallExpr" and cir.callee(b) == "size":
-                f = cir.strip(cir.kids(b)[0])
-                tm = cxx.this_member(cir.kids(f)[0]) if f is not None and cir.kids(f) else None
-                okb = bool(tm) and tm[0] == self.R.T["name"]
+            okb = _is_worker_count(self.R, bound, ctx.fn)
             self.wait.note("wait-bound-is-worker-count", okb, cond,
                            f"the completion wait compares {self.R.D} with `{cir.text(bound)}`, which is not the "
                            f"number of workers ({self.R.T['name']}.size()) although each worker reports once per batch")
@@ -606,33 +601,65 @@ class DtorRule(paths.Rule):
         return st
 
 
+def _has_jump(n):
+    return any(x.get("k") in ("ReturnStmt", "BreakStmt", "ContinueStmt", "GotoStmt", "CXXThrowExpr") for x in cir.walk(n))
+
+
 def _elem_join_ok(stmt, is_elem):
-    """Every path through stmt joins the element (a test of elem.joinable() may guard it)."""
+    """Every path through stmt (nested view: early `continue` / `break` / `return` are if-else structure) joins the
+    element; only a test of elem.joinable() may keep a path from the join (on its `not joinable` side)."""
     if stmt is None:
         return False
     k = stmt.get("k")
     if k == "CompoundStmt":
-        return any(_elem_join_ok(s, is_elem) for s in cir.kids(stmt))
+        for s in cir.kids(stmt):
+            if s is None:
+                continue
+            if _elem_join_ok(s, is_elem):
+                return True
+            if _has_jump(s):
+                return False        # some path leaves before the join
+        return False
     if k == "ExprWithCleanups":
         return any(_elem_join_ok(s, is_elem) for s in cir.kids(stmt))
     if k == "CXXMemberCallExpr" and cir.callee(stmt) == "join":
         f = cir.strip(cir.kids(stmt)[0])
         return is_elem(cir.kids(f)[0]) if f is not None and cir.kids(f) else False
     if k == "IfStmt":
-        c = list(cir.kids(stmt))
-        idx = (1 if stmt.get("hasInit") else 0) + (1 if stmt.get("hasVar") else 0)
-        cond = cir.strip(c[idx])
-        br = c[idx + 1:]
-        if cond is not None and cond.get("k") == "CXXMemberCallExpr" and cir.callee(cond) == "joinable":
-            f = cir.strip(cir.kids(cond)[0])
-            if f is not None and cir.kids(f) and is_elem(cir.kids(f)[0]):
-                return _elem_join_ok(br[0], is_elem)
-        return len(br) == 2 and all(_elem_join_ok(b, is_elem) for b in br)
+        from .. import norm
+        _pre, cond, then, els = norm._if_parts(stmt)
+        atoms = norm.split_cond(cond, True)
+        if len(atoms) == 1:
+            c0, pol = atoms[0]
+            c0 = cir.strip(c0)
+            if c0 is not None and c0.get("k") == "CXXMemberCallExpr" and cir.callee(c0) == "joinable":
+                f = cir.strip(cir.kids(c0)[0])
+                if f is not None and cir.kids(f) and is_elem(cir.kids(f)[0]):
+                    return _elem_join_ok(then if pol else els, is_elem)
+        return els is not None and _elem_join_ok(then, is_elem) and _elem_join_ok(els, is_elem)
+    return False
+
+
+def _is_worker_count(R, e, fn):
+    """e is (a single-definition local holding / an accessor returning) <thread container>.size()"""
+    b = cxx.resolve_local(e, fn, R.kl)
+    if b is not None and b.get("k") == "CXXMemberCallExpr" and cir.callee(b) == "size":
+        f = cir.strip(cir.kids(b)[0])
+        tm = cxx.this_member(cir.kids(f)[0]) if f is not None and cir.kids(f) else None
+        return bool(tm) and tm[0] == R.T["name"]
     return False
 
 
 def join_all(R, fn):
-    """(ok, node, why): a loop over the whole thread container, on every path of fn, joining each element."""
+    """(ok, node, why): a loop over the whole thread container, on every path of fn, joining each element.
+
+    Loop forms: range-for over the container (loop variable by reference); a loop counting an index from 0 to
+    container.size() by one (for or while, see c26.counted_loop) whose element is container[i] / container.at(i).
+    References bound to the element in the loop body are the element.  The body is read in the nested view, so an
+    inverted guard with `continue` is the same as the guarded join."""
+    from .. import norm
+    from .c26 import counted_loop
+    fn = norm.nest(fn, fatal=False)
     body = cir.body(fn)
     top = []
 
@@ -644,6 +671,23 @@ def join_all(R, fn):
                 top.append(s)
     flat(body)
     tname = R.T["name"]
+
+    def with_aliases(lbody, is_elem):
+        """references declared in the loop body and bound to the element"""
+        al = set()
+        for s in norm._stmts(lbody):
+            if s.get("k") == "DeclStmt":
+                for v in cir.kids(s):
+                    if v is not None and v.get("k") == "VarDecl" and (v.get("t") or "").strip().endswith("&") and \
+                            not (v.get("t") or "").strip().endswith("&&"):
+                        init = [c for c in cir.kids(v) if c is not None and not c.get("k", "").endswith("Attr")]
+                        if init and is_elem(init[-1]):
+                            al.add(v.get("id"))
+        written = {cxx.ref_id(lv) for lv, w, h in cxx.writes(lbody)}
+        al -= written
+        return lambda e: is_elem(e) or cxx.ref_id(e) in al
+
+    unread = []
     for s in top:
         if s.get("k") == "ReturnStmt":
             break
@@ -663,48 +707,119 @@ def join_all(R, fn):
             if rng and rng[0] == tname and loopvar is not None:
                 byref = (loopvar.get("t") or "").strip().endswith("&")
                 lid = loopvar.get("id")
-                ok = _elem_join_ok(ks[-1], lambda e: cxx.ref_id(e) == lid)
+                ok = _elem_join_ok(ks[-1], with_aliases(ks[-1], lambda e: cxx.ref_id(e) == lid))
                 if ok and not byref:
                     return False, s, "the loop variable is a copy, not a reference to the container's element"
                 return ok, s, "the loop body does not join the element on every path"
-        if s.get("k") == "ForStmt":
-            ks = list(cir.kids(s)) + [None] * 5
-            init, _v, cond, inc, lbody = ks[:5]
-            iv = None
-            if init is not None and init.get("k") == "DeclStmt":
-                for v in cir.kids(init):
-                    if v is not None and v.get("k") == "VarDecl":
-                        i0 = [c for c in cir.kids(v) if c is not None]
-                        if i0 and cxx.const_int(i0[-1]) == 0:
-                            iv = v
+        if s.get("k") in ("ForStmt", "WhileStmt"):
+            ks = list(cir.kids(s))
+            cond = (ks + [None] * 5)[2] if s.get("k") == "ForStmt" else ks[0]
+            lbody = ks[-1] if s.get("k") == "WhileStmt" else (ks + [None] * 5)[4]
             cs = _cmp_sides(cond) if cond is not None else None
-            if iv is None or not cs or cs[0] != "<" or cxx.ref_id(cs[1]) != iv.get("id"):
+            if cs and cs[0] == ">":
+                cs = ("<", cs[2], cs[1])
+            ivid = cxx.ref_id(cs[1]) if cs and cs[0] in ("<", "!=") else None
+            if ivid is None or lbody is None or not _is_worker_count(R, cs[2], fn):
+                unread.append(s)
                 continue
-            b = cir.strip(cs[2])
-            if not (b is not None and b.get("k") == "CXXMemberCallExpr" and cir.callee(b) == "size"):
+            cl = counted_loop(body, s, ivid)
+            if cl["problems"] or cl["start"] != "0":
+                unread.append(s)
                 continue
-            f = cir.strip(cir.kids(b)[0])
-            tm = cxx.this_member(cir.kids(f)[0]) if f is not None and cir.kids(f) else None
-            if not tm or tm[0] != tname:
-                continue
-            incs = cir.strip(inc)
-            if not (incs is not None and incs.get("k") == "UnaryOperator" and incs.get("op") == "++" and
-                    cxx.ref_id(cir.kids(incs)[0]) == iv.get("id")):
-                continue
+            stmts = norm._stmts(lbody)
+            inc_in_body = [x for x in stmts if ivid in {cxx.ref_id(lv) for lv, w, h in cxx.writes(x)}]
+            if inc_in_body:
+                # the element is container[i] only before the increment
+                if inc_in_body != [stmts[-1]] or stmts[-1].get("k") not in ("UnaryOperator", "CompoundAssignOperator"):
+                    unread.append(s)
+                    continue
 
-            def is_elem(e, iv=iv):
+            def is_elem(e, ivid=ivid):
                 e = cir.strip(e)
-                if e is None or e.get("k") != "CXXOperatorCallExpr":
+                if e is None:
                     return False
-                k2 = cir.kids(e)
-                return cir.text(k2[0]) == "operator[]" and (cxx.this_member(k2[1]) or (None,))[0] == tname and \
-                    cxx.ref_id(k2[2]) == iv.get("id")
-            return _elem_join_ok(lbody, is_elem), s, "the loop body does not join the element on every path"
+                if e.get("k") == "CXXOperatorCallExpr":
+                    k2 = cir.kids(e)
+                    return cir.text(k2[0]) == "operator[]" and (cxx.this_member(k2[1]) or (None,))[0] == tname and \
+                        cxx.ref_id(k2[2]) == ivid
+                if e.get("k") == "CXXMemberCallExpr" and cir.callee(e) == "at" and len(cir.kids(e)) == 2:
+                    f = cir.strip(cir.kids(e)[0])
+                    return f is not None and bool(cir.kids(f)) and \
+                        (cxx.this_member(cir.kids(f)[0]) or (None,))[0] == tname and cxx.ref_id(cir.kids(e)[1]) == ivid
+                return False
+            return _elem_join_ok(lbody, with_aliases(lbody, is_elem)), s, "the loop body does not join the element on every path"
+    # a loop that joins threads but is not one of the forms above cannot be decided either way
+    for lp in cir.walk(body):
+        if lp.get("k") in ("ForStmt", "WhileStmt", "DoStmt", "CXXForRangeStmt"):
+            for x in cir.walk(lp):
+                if x.get("k") == "CXXMemberCallExpr" and cir.callee(x) == "join":
+                    f = cir.strip(cir.kids(x)[0])
+                    obj = cir.strip(cir.kids(f)[0]) if f is not None and cir.kids(f) else None
+                    if obj is not None and _is_thread_type(cxx.type_of(obj)) and (any(lp is u for u in unread) or not any(lp is t_ for t_ in top)):
+                        raise AnalysisError(f"{CLASS}::~{CLASS}: loop at line {lp.get('line')} joins threads but is not a "
+                                            f"recognised iteration over all elements of {tname} (range-for, or an index "
+                                            f"counted from 0 to {tname}.size() by one)")
     return False, fn, f"no loop over all elements of {tname} is reached on every path of the destructor"
 
 
+class StopRule(paths.Rule):
+    """Which constant does the worker leave on?  state: the constants the *last observed* value of the publication
+    atomic is known to equal on this path (from `obs == k` taken / `obs != k` not taken / `!obs`), forgotten at the next
+    observation.  Exits (return, end of the body however it is reached: break out of the main loop, fall off the end)
+    record the known constants; reaching the next wait() with a known constant records that the worker goes on with it."""
+
+    def __init__(self, R, sig_vars):
+        self.R, self.sig_vars = R, sig_vars
+        self.exit_ks, self.goes_on = set(), set()
+
+    def initial(self, fn):
+        return frozenset()
+
+    def _observed(self, e):
+        e = cir.strip(e)
+        if e is None:
+            return False
+        if cxx.ref_id(e) in self.sig_vars:
+            return True
+        op = cxx.atomic_op(e)
+        return op is not None and op.member == self.R.P and op.kind == "load"
+
+    def call(self, st, node, name, ctx):
+        op = cxx.atomic_op(node)
+        if op is not None and op.member == self.R.P and op.kind in ("wait", "load", "rmw", "cas"):
+            if op.kind == "wait":
+                self.goes_on |= st
+            return frozenset()      # what is known about the previous observation says nothing about this one
+        return st
+
+    def assign(self, st, node, ctx):
+        vid = node.get("id") if node.get("k") == "VarDecl" else cxx.ref_id(cir.kids(node)[0])
+        if vid in self.sig_vars:
+            return frozenset()
+        return st
+
+    def branch(self, st, cond, taken, ctx):
+        s = _cmp_sides(cond)
+        if s and s[0] in ("==", "!="):
+            for a, b in ((s[1], s[2]), (s[2], s[1])):
+                k = cxx.const_int(b)
+                if k is not None and self._observed(a) and taken == (s[0] == "=="):
+                    return st | {k}
+            return st
+        if self._observed(cond) and not taken:      # `if (!obs)` / `while (obs)`
+            return st | {0}
+        return st
+
+    def ret(self, st, node, ctx):
+        self.exit_ks |= st
+
+    def fallthrough(self, st, ctx):
+        self.exit_ks |= st
+
+
 def stop_value(R):
-    """The constant the worker compares the observed signal with on its exit path."""
+    """The constant on which the worker leaves: on every path where the observed signal equals it the worker function
+    ends (return, break out of its main loop and fall off the end, ...) without reaching the next wait()."""
     fn = R.worker
     sig_vars = set()
     for n in cir.walk(cir.body(fn)):
@@ -717,25 +832,9 @@ def stop_value(R):
         op = cxx.atomic_op(cir.strip(val)) if val is not None else None
         if vid and op is not None and op.member == R.P and op.kind in ("load", "rmw"):
             sig_vars.add(vid)
-    stops = set()
-    for n in cir.walk(cir.body(fn)):
-        if n.get("k") != "IfStmt":
-            continue
-        c = list(cir.kids(n))
-        idx = (1 if n.get("hasInit") else 0) + (1 if n.get("hasVar") else 0)
-        s = _cmp_sides(c[idx])
-        if not s or s[0] not in ("==", "!="):
-            continue
-        for a, b in ((s[1], s[2]), (s[2], s[1])):
-            k = cxx.const_int(b)
-            op = cxx.atomic_op(cir.strip(a))
-            is_sig = cxx.ref_id(a) in sig_vars or (op is not None and op.member == R.P and op.kind == "load")
-            if k is None or not is_sig:
-                continue
-            br = c[idx + 1:]
-            exits = br[0] if s[0] == "==" else (br[1] if len(br) > 1 else None)
-            if exits is not None and cxx.always_ends(exits):
-                stops.add(k)
+    rule = StopRule(R, sig_vars)
+    paths.explore(rule, None, fn)
+    stops = rule.exit_ks - rule.goes_on
     if len(stops) != 1:
         raise AnalysisError(f"{CLASS}::{R.worker_name}: exit test on the observed value of {R.P} not recognised "
                             f"(stop values {sorted(stops)})")
@@ -980,7 +1079,7 @@ def thread_ids(R, res, unit):
 def _pool_field(unit):
     """Name of the mjData field that holds the context (operand of the cast to CLASS*)."""
     names = set()
-    for f in ANCHOR_FUNCS:
+    for f in sorted(unit.funcs):       # the cast may live in an accessor helper of the TU
         for n in cir.walk(unit.funcs[f]):
             if n.get("k") == "CXXReinterpretCastExpr" and CLASS in (n.get("t") or ""):
                 x = cir.strip(cir.kids(n)[0])
@@ -991,6 +1090,35 @@ def _pool_field(unit):
     return names.pop()
 
 
+def _null_test(cond, is_subject):
+    """True / False when the leaf condition holds exactly if the subject is non-null / null (`p`, `p != 0`,
+    `p != nullptr`, `0 == p`, ...; `!` is removed by the path engine); None for any other condition."""
+    c = cir.strip(cond)
+    if c is None:
+        return None
+    if is_subject(c):
+        return True
+    s = _cmp_sides(c)
+    if s and s[0] in ("==", "!="):
+        for a, b in ((s[1], s[2]), (s[2], s[1])):
+            if is_subject(a) and cxx.const_truth(b) is False:
+                return s[0] == "!="
+    return None
+
+
+def _pool_aliases(fn, field):
+    """locals initialised from (a cast of) the pool pointer and never written afterwards"""
+    alias = set()
+    for n in cir.walk(fn):
+        if n.get("k") == "VarDecl":
+            for x in cir.walk(n):
+                if x.get("k") == "MemberExpr" and x.get("n") == field:
+                    alias.add(n.get("id"))
+    for lv, w, how in cxx.writes(cir.body(fn), own=False):
+        alias.discard(cxx.ref_id(lv))
+    return alias
+
+
 class ReplaceRule(paths.Rule):
     """mju_threadpool.  state: unk | null | live | deleted | set"""
     use_kinds = frozenset({"CXXDeleteExpr"})
@@ -998,12 +1126,7 @@ class ReplaceRule(paths.Rule):
     def __init__(self, field, ev, fn):
         self.field, self.ev = field, ev
         # locals that alias the pool pointer (initialised from a cast of it)
-        self.alias = set()
-        for n in cir.walk(fn):
-            if n.get("k") == "VarDecl":
-                for x in cir.walk(n):
-                    if x.get("k") == "MemberExpr" and x.get("n") == field:
-                        self.alias.add(n.get("id"))
+        self.alias = _pool_aliases(fn, field)
 
     def is_pool(self, n):
         n = cir.strip(n)
@@ -1013,8 +1136,10 @@ class ReplaceRule(paths.Rule):
         return "unk"
 
     def branch(self, st, cond, taken, ctx):
-        if self.is_pool(cond):
-            if taken:
+        # an alias holds the value the field had when the alias was initialised: only while the field is unmodified
+        pol = _null_test(cond, lambda n: self.is_pool(n) or (st in ("unk", "live", "null") and cxx.ref_id(n) in self.alias))
+        if pol is not None:
+            if taken == pol:
                 return "live" if st in ("unk", "live") else (None if st == "null" else st)
             return "null" if st in ("unk", "null") else (None if st == "live" else st)
         return st
@@ -1048,16 +1173,26 @@ class ReplaceRule(paths.Rule):
 class NonNullRule(paths.Rule):
     """mju_dispatch: the Dispatch call is reached only where the pool pointer was tested non-null."""
 
-    def __init__(self, field, ev, call_node):
+    def __init__(self, field, ev, call_node, fn):
         self.field, self.ev, self.call_node = field, ev, call_node
+        self.alias = _pool_aliases(fn, field)
 
     def initial(self, fn):
         return "unk"
 
+    def _subject(self, n):
+        n = cir.strip(n)
+        if n is None:
+            return False
+        if n.get("k") == "MemberExpr" and n.get("n") == self.field:
+            return True
+        # a pointer local initialised from the field (never a reference / dereference of it)
+        return cxx.ref_id(n) in self.alias and (n.get("t") or "").strip().endswith("*")
+
     def branch(self, st, cond, taken, ctx):
-        c = cir.strip(cond)
-        if c is not None and c.get("k") == "MemberExpr" and c.get("n") == self.field:
-            return "live" if taken else "null"
+        pol = _null_test(cond, self._subject)
+        if pol is not None:
+            return "live" if taken == pol else "null"
         return st
 
     def call(self, st, node, name, ctx):
@@ -1161,8 +1296,10 @@ class CWriterRule(paths.Rule):
 def pool_lifecycle(res, unit, R, repo):
     res.rule("R-POOL-REPLACE", "the old context is deleted before the pool pointer is replaced, no dangling or shared "
              "pointer survives, Dispatch only behind the null test, mj_deleteData destroys the pool first", floor=5)
+    from .. import norm
     field = _pool_field(unit)
-    fn = unit.funcs["mju_threadpool"]
+    # helper functions of the TU (accessors such as `static Ctx* Pool(const mjData*)`) are read inside their callers
+    fn = norm.canon(unit, "mju_threadpool", inline_helpers=True, propagate=False, nested=False, exclude=ANCHOR_FUNCS)
     ev = Events()
     paths.explore(ReplaceRule(field, ev, fn), unit, fn)
     if "delete-before-replace" not in ev.ev:
@@ -1170,8 +1307,14 @@ def pool_lifecycle(res, unit, R, repo):
     # the new context is created from the requested size
     ev.flush(res, "R-POOL-REPLACE", "mju_threadpool", TU)
     ev = Events()
-    fn = unit.funcs["mju_dispatch"]
-    paths.explore(NonNullRule(field, ev, R.dispatch_call), unit, fn)
+    fn = norm.canon(unit, "mju_dispatch", inline_helpers=True, propagate=False, nested=False, exclude=ANCHOR_FUNCS)
+    mids = R.kl.method_ids()
+    dcalls = [n for n in cir.walk(fn) if n.get("k") == "CXXMemberCallExpr" and
+              (cir.strip(cir.kids(n)[0]) or {}).get("k") == "MemberExpr" and
+              (cir.strip(cir.kids(n)[0]) or {}).get("mid") in mids and (cir.strip(cir.kids(n)[0]) or {}).get("n") == R.dispatch_name]
+    if len(dcalls) != 1:
+        raise AnalysisError(f"mju_dispatch: expected one call of {CLASS}::{R.dispatch_name}, found {len(dcalls)}")
+    paths.explore(NonNullRule(field, ev, dcalls[0], fn), unit, fn)
     if not ev.ev:
         raise AnalysisError("mju_dispatch: call of the dispatch method not visited")
     ev.flush(res, "R-POOL-REPLACE", "mju_dispatch", TU)
